@@ -258,3 +258,29 @@ Theorem C18_inf_iff_zero_duration : forall kind count picos binary, kind <= 3 ->
     ~ contains nan_str s.
 Proof. exact throughput_inf_iff. Qed.
 Print Assumptions C18_inf_iff_zero_duration.
+
+(** * Explicit precision / width of a throughput
+    ([format!("{t:<w$.p$}")] of a [DisplayThroughput]) *)
+
+(** The precision has ONE reader — the number of significant figures — and the
+    width only pads (on the right, by byte length): for every precision and
+    every width the output is the rule's string for [thr_sig prec] figures
+    followed by spaces; it is never cut. *)
+Theorem C18_throughput_with_trunc : forall kind count picos binary prec width f,
+  thr_format kind binary = Ok f -> thr_sig prec + 1 < 2 ^ 64 -> count <> 0 -> picos <> 0 ->
+  display_throughput_with kind count picos binary prec width
+  = Ok (fill_to width (spec_scaled_string f (thr_sig prec) (count * 1000000000000) picos)).
+Proof. exact throughput_with_spec. Qed.
+Print Assumptions C18_throughput_with_trunc.
+
+Theorem C18_throughput_with_default : forall kind count picos binary,
+  display_throughput_with kind count picos binary None None = display_throughput kind count picos binary.
+Proof. exact throughput_with_default. Qed.
+Print Assumptions C18_throughput_with_default.
+
+Theorem C18_throughput_with_model_sb : forall kind count picos binary prec width,
+  kind <= 3 -> thr_sig prec + 1 < 2 ^ 64 ->
+  throughput_with_sb kind count picos binary prec width
+    (display_throughput_with kind count picos binary prec width) = true.
+Proof. exact throughput_with_model_sb. Qed.
+Print Assumptions C18_throughput_with_model_sb.
